@@ -1,7 +1,7 @@
 (* C15 — Untrusted peers cannot crash or bloat the node (decision/arithmetic part of the message handler, the frame
    reader and the packet decoder; goroutine blocking and memory growth are runtime facts explored by the harness).
    Only statements; each is closed by a lemma proved in theories/HandlerProofs.v. *)
-From ZV Require Import Prelude GoSem Paging Handler Frame HandlerProofs Session SessionProofs BaseMsg BaseMsgProofs.
+From ZV Require Import Prelude GoSem Paging Handler Frame HandlerProofs Session SessionProofs BaseMsg BaseMsgProofs EncHs EncHsProofs.
 From ZV.gen Require Import Consts.
 Open Scope Z_scope.
 
@@ -107,6 +107,53 @@ Theorem C15_peer_added_iff : forall limited size code payload decodes version id
   id_zero = false /\ id_match = true /\ caps_match = true.
 Proof. exact setup_added_iff. Qed.
 
+(* encryption handshake, before anybody is authenticated: whatever arrives as auth message on an accepted connection or
+   as auth response on a dialed one - any number of bytes, an ECIES envelope that opens under the node's key or not, a
+   public key field that is a point of the curve or not, a signature from which a key can be recovered or not - and
+   whatever first frame follows, neither side of the handshake nor the rest of setupConn reaches a Go panic (the slices
+   of the plaintext are in range, a key field that is not a curve point is refused before it reaches the scalar
+   multiplication) *)
+Theorem C15_enc_handshake_no_panic : forall got dec_ok key_valid sig_ok mac_ok size code payload decodes version id_zero id_match,
+  recv_enc got dec_ok key_valid sig_ok <> EncPanic /\ init_enc got dec_ok key_valid <> EncPanic /\
+  listen_conn got dec_ok key_valid sig_ok mac_ok size code payload decodes version id_zero id_match <> CPanic /\
+  dial_conn got dec_ok key_valid mac_ok size code payload decodes version id_zero id_match <> CPanic.
+Proof. exact enc_handshake_no_panic. Qed.
+
+(* an accepted connection becomes a peer only if the complete auth message arrived, opened under the node's key, named a
+   static key that is a curve point, carried a signature from which the ephemeral key is recovered, the first frame
+   verified under the session secrets, and the hello in it is well-formed and names the identity of the auth message *)
+Theorem C15_listen_peer_iff : forall got dec_ok key_valid sig_ok mac_ok size code payload decodes version id_zero id_match,
+  listen_conn got dec_ok key_valid sig_ok mac_ok size code payload decodes version id_zero id_match = CPeer <->
+  EncAuthMsgLen <= got /\ dec_ok = true /\ key_valid = true /\ sig_ok = true /\ mac_ok = true /\
+  size <= BaseProtocolMaxMsgSize /\ code = HandshakeMsg /\ decodes = true /\ version = BaseProtocolVersion /\
+  id_zero = false /\ id_match = true.
+Proof. exact listen_peer_iff. Qed.
+
+(* likewise for a dialed connection and the auth response *)
+Theorem C15_dial_peer_iff : forall got dec_ok eph_valid mac_ok size code payload decodes version id_zero id_match,
+  dial_conn got dec_ok eph_valid mac_ok size code payload decodes version id_zero id_match = CPeer <->
+  EncAuthRespLen <= got /\ dec_ok = true /\ eph_valid = true /\ mac_ok = true /\
+  size <= BaseProtocolMaxMsgSize /\ code = HandshakeMsg /\ decodes = true /\ version = BaseProtocolVersion /\
+  id_zero = false /\ id_match = true.
+Proof. exact dial_peer_iff. Qed.
+
+(* a refusal in the encryption handshake is final, whatever the remote side sends afterwards *)
+Theorem C15_enc_refused_never_peer : forall got dec_ok key_valid sig_ok mac_ok size code payload decodes version id_zero id_match,
+  (recv_enc got dec_ok key_valid sig_ok = EncRefused ->
+   listen_conn got dec_ok key_valid sig_ok mac_ok size code payload decodes version id_zero id_match = CRefusedEnc) /\
+  (init_enc got dec_ok key_valid = EncRefused ->
+   dial_conn got dec_ok key_valid mac_ok size code payload decodes version id_zero id_match = CRefusedEnc).
+Proof. intros. split; [apply refused_never_peer|apply dial_refused_never_peer]. Qed.
+
+(* record (fixed in /repo): decodeAuthResp took the responder's ephemeral key through importPublicKey, which yields nil
+   coordinates for 64 bytes that are not a curve point; encHandshake.secrets then dereferenced them in the goroutine of
+   the dial task: every complete response that opens and carries such a key ended the dialing node *)
+Theorem C15_dial_unchecked_ephemeral_key_refuted : exists got, init_enc_gen false got true false = EncPanic.
+Proof. exists EncAuthRespLen. apply init_unchecked_key_panics. unfold EncAuthRespLen. lia. Qed.
+(* the same on the listening side is what NodeID.Pubkey's curve check stands against *)
+Theorem C15_listen_unchecked_static_key_refuted : exists got sig_ok, recv_enc_gen false got true false sig_ok = EncPanic.
+Proof. exists EncAuthMsgLen, true. apply recv_unchecked_key_panics. unfold EncAuthMsgLen. lia. Qed.
+
 (* of a BlocksMsg nothing reaches the downloader or the fetcher unless every momentum in it hashes to the hash it
    states (they file a delivered momentum under its stated hash and height); one that does not makes the message a
    protocol error of its sender *)
@@ -152,4 +199,13 @@ Example C15_base_msg_example :
   react true 9 25 [192] = RClosed None /\ react true 9 24 [192] = RStay /\ react true 9 0 [1;2;3] = RStay /\
   base_handle_gen 0 true 9 DiscMsg [192] = HPanic /\                (* a decode target without an element panics *)
   setup_conn true 3 DiscMsg [192] false 0 false false false = SRefused (Some 0).
+Proof. vm_compute. repeat split; reflexivity. Qed.
+Example C15_enc_handshake_example :
+  listen_conn 307 true true true true 100 HandshakeMsg [] true BaseProtocolVersion false true = CPeer /\
+  listen_conn 307 true false true true 100 HandshakeMsg [] true BaseProtocolVersion false true = CRefusedEnc /\   (* static key off the curve *)
+  listen_conn 306 true true true true 100 HandshakeMsg [] true BaseProtocolVersion false true = CRefusedEnc /\
+  listen_conn 307 true true true false 100 HandshakeMsg [] true BaseProtocolVersion false true = CRefusedProto /\ (* secrets not known *)
+  listen_conn 307 true true true true 100 HandshakeMsg [] true BaseProtocolVersion false false = CRefusedProto /\ (* another identity *)
+  dial_conn 210 true true true 100 HandshakeMsg [] true BaseProtocolVersion false true = CPeer /\
+  dial_conn 210 true false true 100 HandshakeMsg [] true BaseProtocolVersion false true = CRefusedEnc.             (* ephemeral key off the curve *)
 Proof. vm_compute. repeat split; reflexivity. Qed.
